@@ -1,7 +1,7 @@
 (* C17 — function entry/exit probes fire once per call on every normal path.  Statements only. *)
 From Coq Require Import List Arith NArith ZArith Bool.
 Import ListNotations.
-From Orca Require Import Util Flat Lowering CheckLow Tree TreeLower WasmP SemProofs EvalP Sim SimFn CheckSem KnownSem SelfCase.
+From Orca Require Import Util Flat Lowering CheckLow Tree TreeLower WasmP SemProofs EvalP Sim SimFn Peel SimFnReal CheckSem KnownSem SelfCase.
 
 (* The specification [exec_fn .. true] fires the entry probes before any original instruction (they are part of
    the before-probes of instruction 0), and the exit probes X once when the body falls off its end, once when it
@@ -23,6 +23,24 @@ Theorem C17_function_entry_exit_lowering_correct :
       exists fuel' ob', exec_fn ftypes nof [] [] false fuel' (fn_tree F X ty body fe) 0 c = ob' /\ res_eq nres ob ob'.
 Proof. exact sim_fn. Qed.
 Print Assumptions C17_function_entry_exit_lowering_correct.
+
+(* The same for the placement the implementation really emits -- the before-code of instruction 0 (the user's
+   before-probes, then the entry probes) in front of the wrapper block's opener:
+       real_tree = pre ++ [block ty (lowered body without instruction 0's before-code ++ bef(final end)) end] ++ X.
+   CheckSem.tree_tie compares exactly this tree with the emitted body on every sampled program. *)
+Theorem C17_real_placement_correct :
+  forall (ftypes : list (nat * nat)) (F : nat -> flags) (X : list fop),
+    pcode X ->
+    (forall i, pcode (bef F i) /\ pcode (aft F i) /\ pcode (be_ F i) /\ pcode (bx_ F i) /\ pcode (sa_ F i)) ->
+    neutral X -> neutral (bef F 0) ->
+    forall (ty : N) (nres : nat), arity ftypes (BtFunc ty) = (0, nres)%nat ->
+    forall fuel x rest fe c ob,
+      exec_fn ftypes F [] X true fuel (x :: rest) fe c = ob -> ob <> OFuel -> nbl F (x :: rest) -> stack c = [] ->
+      head_at_0 x -> ~ In 0 (positions rest) -> fe <> 0%nat ->
+      (forall c1 n p c', exec ftypes (F0 F) X true fuel false (x :: rest) c1 = OBr n p c' -> n = 0%nat) ->
+      exists fuel' ob', exec_fn ftypes nof [] [] false fuel' (real_tree F X ty (x :: rest) fe) 0 c = ob' /\ res_eq nres ob ob'.
+Proof. exact sim_fn_real. Qed.
+Print Assumptions C17_real_placement_correct.
 
 (* the exit probes are spliced in front of every return / return_call / unreachable / throw of the body *)
 Theorem C17_exit_before_every_exit_instruction :
